@@ -270,20 +270,40 @@ def generate_property(
     return lines, type_name
 
 
+def _message_class_names(spec: model.LSPModel) -> List[str]:
+    names = []
+    for request in spec.requests:
+        name = get_name(request)
+        stem = name[:-7] if name.endswith("Request") else name
+        names += [f"{stem}Request", f"{stem}Response"]
+    for notification in spec.notifications:
+        name = get_name(notification)
+        names += [name if name.endswith("Notification") else f"{name}Notification"]
+    return names
+
+
 def generate_name(
     name_context: str, types: TypeData, spec: Optional[model.LSPModel] = None
 ) -> str:
     def taken(candidate: str) -> bool:
         # A name is taken by a type generated so far, or by a type the model
-        # declares (it may not be generated yet, e.g. the owner of a literal).
+        # declares (it may not be generated yet, e.g. the owner of a literal),
+        # or by the class of a message (generated last).
         return (
             bool(types.get_by_name(candidate))
             or types.is_reserved(candidate)
             or (
                 spec is not None
-                and any(
-                    t.name == candidate
-                    for t in [*spec.structures, *spec.enumerations, *spec.typeAliases]
+                and (
+                    any(
+                        t.name == candidate
+                        for t in [
+                            *spec.structures,
+                            *spec.enumerations,
+                            *spec.typeAliases,
+                        ]
+                    )
+                    or candidate in _message_class_names(spec)
                 )
             )
         )
